@@ -118,7 +118,7 @@ func genC05(t *core.Tape, tier string) *Scenario {
 			p.HProg = prog
 		}
 	}
-	o := ref.EncOpts{PadBin: t.Bool(1, 2, "padbin"), UpperHex: t.Bool(1, 2, "upperhex"), LowerKeys: t.Bool(1, 2, "lowerkeys"), BareCT: t.Bool(1, 3, "barect"), OmitDetails: t.Bool(1, 2, "omitdetails")}
+	o := ref.EncOpts{PadBin: t.Bool(1, 2, "padbin"), UpperHex: t.Bool(1, 2, "upperhex"), LowerKeys: t.Bool(1, 2, "lowerkeys"), BareCT: t.Bool(1, 3, "barect"), OmitDetails: t.Bool(1, 2, "omitdetails"), NameIdentity: t.Bool(1, 3, "nameidentity")}
 	compressEvery := t.Choose(3, "compress.every")
 	if mode == 1 {
 		// ---- real client <-> reference server
